@@ -56,29 +56,6 @@ def storeFilesKept (kind : StoreKind) (pre post : FS String) (t : APath) (s : St
     | none => false) &&
   (listBelow post d).all (fun e => !e.2 || exp.any (fun x => x.1 == d ++ e.1))
 
-/-- in-place saves: every plain file that was on disk below `data/` and `images/` when the font was loaded, and
-    that the history did not remove through the API (`KEEP`, computed by the harness from the directory tree, not
-    from norad's listing), is still there afterwards — with the bytes of a successful re-insert, otherwise with
-    the bytes it had.  Features: `untracked` (the font no longer has an entry for it), `lost`, `changed`. -/
-def keepFailures (f : AFont String) (pre post : FS String) (t : APath) (keep : String) : List String :=
-  if keep = "-" || keep = "" then [] else
-  let fails := (keep.splitOn ",").filterMap fun e =>
-    match e.splitOn ":" with
-    | [k, hk] =>
-      let kind := if k = "d" then StoreKind.data else StoreKind.images
-      let key := Path.parse (unhexD hk)
-      let path := t ++ [(storeDirName kind).toList] ++ namesOf key
-      let cell : Option (Cell String) := ((f.store kind).items.find? (fun kc => kc.1 == key)).map (·.2)
-      let expected : Option (Node String) := match cell with
-        | some (Cell.loaded b) => some (Node.file b)
-        | _ => lookup pre path
-      match cell, lookup post path with
-      | none, _ => some "untracked"
-      | _, none => some "lost"
-      | _, some n => if some n == expected then none else some "changed"
-    | _ => none
-  dedup fails
-
 def run (inp obs : List String) : Verdict :=
   let f := parseFont obs
   let pre := parseTree (field obs "PRE")
@@ -106,8 +83,10 @@ def run (inp obs : List String) : Verdict :=
   let s2b := if isErr && refusalVariants.contains variant && !same then ["refusal-with-effects:" ++ variant] else []
   let s3 := if r = "ok" && !(storeFilesKept .data pre post t f.data && storeFilesKept .images pre post t f.images)
     then ["store-files-kept" ++ (if f.data.root == t then ":inplace" else "")] else []
-  let kf := if r = "ok" then keepFailures f pre post t (field obs "KEEP") else []
-  let s4 := if kf.isEmpty then [] else ["inplace-keeps-disk-files:" ++ ",".intercalate kf]
+  let kf := if r = "ok" then keepFailures f pre post t (splitPath (field obs "SRC")) (field obs "KEEP") else []
+  let s4 := if kf.isEmpty then [] else
+    [(if f.data.root == t || f.images.root == t || splitPath (field obs "SRC") == t then "inplace-keeps-disk-files:"
+      else "loaded-store-files-saved:") ++ ",".intercalate kf]
   let inplace := f.data.root == t && t ≠ []
   let tags :=
     ["pre" ++ field inp "pre", "res-" ++ obsClass r] ++
